@@ -93,12 +93,12 @@ func readAllMax(r io.Reader, max int) ([]byte, error) {
 type DeflateVariant int
 
 const (
-	DVSync      DeflateVariant = iota // one sync flush at the end, tail stripped
-	DVBFinal                          // BFINAL=1 block(s) followed by 0x00 (RFC 7692 §7.2.3.4)
-	DVStored                          // stored (uncompressed) DEFLATE blocks
-	DVMultiFlush                      // several sync flushes inside the message
-	DVBest                            // level 9
-	DVHuffman                         // Huffman-only
+	DVSync       DeflateVariant = iota // one sync flush at the end, tail stripped
+	DVBFinal                           // BFINAL=1 block(s) followed by 0x00 (RFC 7692 §7.2.3.4)
+	DVStored                           // stored (uncompressed) DEFLATE blocks
+	DVMultiFlush                       // several sync flushes inside the message
+	DVBest                             // level 9
+	DVHuffman                          // Huffman-only
 	NumDeflateVariants
 )
 
